@@ -564,10 +564,12 @@ func genRandomCases(r *rand.Rand, thorough bool) []tcase {
 type nullIndexStore struct{}
 
 func (nullIndexStore) GetIndexReader(name string) (io.ReadCloser, error) { return nil, os.ErrNotExist }
-func (nullIndexStore) GetIndex(name string) (desync.Index, error)          { return desync.Index{}, os.ErrNotExist }
-func (nullIndexStore) StoreIndex(name string, idx desync.Index) error      { return nil }
-func (nullIndexStore) String() string                                      { return "null" }
-func (nullIndexStore) Close() error                                        { return nil }
+func (nullIndexStore) GetIndex(name string) (desync.Index, error) {
+	return desync.Index{}, os.ErrNotExist
+}
+func (nullIndexStore) StoreIndex(name string, idx desync.Index) error { return nil }
+func (nullIndexStore) String() string                                 { return "null" }
+func (nullIndexStore) Close() error                                   { return nil }
 
 // nullFS accepts every node (a file's data is read to its end, as a real writer does)
 type nullFS struct{}
@@ -582,10 +584,12 @@ func (nullFS) CreateDevice(n desync.NodeDevice) error   { return nil }
 
 type emptyStore struct{}
 
-func (emptyStore) GetChunk(id desync.ChunkID) (*desync.Chunk, error) { return nil, desync.ChunkMissing{ID: id} }
-func (emptyStore) HasChunk(id desync.ChunkID) (bool, error)          { return false, nil }
-func (emptyStore) String() string                                    { return "empty" }
-func (emptyStore) Close() error                                      { return nil }
+func (emptyStore) GetChunk(id desync.ChunkID) (*desync.Chunk, error) {
+	return nil, desync.ChunkMissing{ID: id}
+}
+func (emptyStore) HasChunk(id desync.ChunkID) (bool, error) { return false, nil }
+func (emptyStore) String() string                           { return "empty" }
+func (emptyStore) Close() error                             { return nil }
 
 func runCase(c tcase, scratch string) (res []string, panicMsg string, alloc uint64, hung bool) {
 	data := c.Data
@@ -936,4 +940,3 @@ func tail(s string, n int) string {
 	}
 	return s
 }
-
